@@ -7,26 +7,26 @@ ROOT = os.path.dirname(os.path.dirname(os.path.abspath(__file__)))
 TECH = "contract-based deductive verification: pyvc generates verification conditions from the real /repo function bodies (AST walked anew each run) against sidecar contracts; z3 discharges them (cvc5 on unknown); refutations are replayed on the real code"
 NOTE = ("trusted: pyvc's encoding of the Python subset (differentially validated against CPython by ./check selftest, not proved), z3/cvc5 for unsat, "
         "the abstract backend contract pyvc/ghost.py, lemma instances for F_p and the floor-division bit view; structure (widths, operand kinds, shapes, flag/guard mode) "
-        "is enumerated per configuration, values are symbolic and unbounded; program-level composition of per-call facets is a pen-and-paper frame argument")
+        "is enumerated per configuration, values are symbolic and unbounded; program-level composition of per-call facets is a pen-and-paper frame argument resting on the proved obligation frame.assigns (no function keeps state outside its declared frame); after a failed frame obligation a depth-2 history search (bounded, only ever yields failing inputs) looks for a replayable witness")
 
 CLAIMED = {
     "C01": ("proof", "facet C of every gadget function under contract: each triple emitted on each non-raising path of the real body holds on the honest witness mod p, for all operand values"),
-    "C02": ("proof", "facet S: for all assignments to the auxiliary witnesses that satisfy the emitted triples (operands tied to honest values) the result wire equals the honest result; boolean results are 0/1; callees enter through their contracts only. Known findings (quotient not range-checked; x&|^int unconstrained) are re-derived and replayed on every run"),
+    "C02": ("proof", "facet S: for all assignments to the auxiliary witnesses that satisfy the emitted triples the result wire is the field function of the operand wires, and with the operands tied to their honest values (a hypothesis the clause names itself, never a global axiom) it equals the honest result; boolean results are 0/1; callees enter through their contracts only. Known findings (quotient not range-checked; x&|^int unconstrained) are re-derived and replayed on every run"),
     "C03": ("proof", "facets S/E/R on every assertion and declaration: enforced relation equals the run-time relation at the same width, raise <=> relation false"),
-    "C04": ("proof", "clause V.inv (value == wire expression on the honest witness mod p) on every function returning a secret object, in all four flag/guard modes"),
+    "C04": ("proof", "clause V.inv (value == wire expression on the honest witness mod p) on every function returning a secret object, in all four flag/guard modes; F.operands_not_mutated and frame.assigns: no existing secret object, shared constant, module global or operand attribute is written outside the declared frame"),
     "C05": ("proof", "facets V/R: returned value equals the plain-Python spec written from the property statement, raise <=> stated condition, for all operand values and operand-kind combinations"),
     "C06": ("proof", "facets T/N: the event list (variable kinds, triples with coefficients, callee groups keyed by public parameters) is identical on every non-raising path and across error/guard-value modes; no coefficient mentions a secret symbol"),
     "C07": ("proof", "all facets re-proved in modes g0/g1 plus G.inert: no value-caused exception is reachable under a false guard; known findings listed"),
     "C08": ("proof", "guard state machine: add_guard / restore_guard / the guarded wrapper against a havocked body that may leave any state behind and exit by return or by any BaseException; unbounded in nesting depth (no loop involved) and in values"),
     "C10": ("proof", "snarkjs prove(): the two files as ghost byte sequences, checked field by field against a layout written from the iden3 format description: magic/version/section table, declared sizes and counts, every field element canonical and congruent to the traced value, wire numbering; trace shapes enumerated, all values symbolic (negative, >= p, >= 2^256 included)"),
-    "C13": ("proof", "backend linear-combination algebra with operands of UNBOUNDED size: the dict-merge loops of snarkjs/zkinterface LinearCombination are cut by pointwise invariants, comprehensions by a map rule, qaptools Sig by sequence contracts; operands untouched, results fresh; allocation primitives; moduli equal the published curve orders (Miller-Rabin for primality); fieldinverse / gmpy.invert for every argument"),
-    "C09": ("proof", "program schemas (if, if/else, if/elif/else, nested if, while, for with public and secret bounds, lazily evaluated selection) run as interpreted client programs over the real API with symbolic values and conditions, compared with their native-control-flow twin; complete in values, bounded in program shape. On the pinned tree every schema with a secret condition raises (known findings KF-22..28): what is proved is selection with value branches, the public-condition schemas and the bookkeeping functions"),
-    "C11": ("proof", "zkinterface prove() for the three field configurations, at call level under an ASSUMED contract of flatbuffers.Builder (library absent): the real generated accessor modules are interpreted against it and the message trees decoded by the slot order of zkinterface.fbs; ids, canonical little-endian values, free variable id, field maximum, message selection per file, no witness and no dependence on private values in circuit.zkif. File bytes are not decided"),
-    "C12": ("proof", "qaptools writer side and split at token level: client programs (straight-line, and a sub-circuit function called twice) with symbolic values; every logged equation satisfied by the logged wire values mod p (independent evaluator of the equation grammar), public values tied, flush discipline before the split, per-function files complete, paired blocks of equal length / equal values / equal randomness, shared signature. External executables are failing stubs; md5 collision freedom assumed"),
+    "C13": ("proof", "backend linear-combination algebra with operands of UNBOUNDED size: the dict-merge loops of snarkjs/zkinterface LinearCombination are cut by pointwise invariants, comprehensions by a map rule, qaptools Sig by sequence contracts plus concrete-shape algebraic clauses (per wire, coefficient sums mod p); operands untouched, results fresh; allocation primitives; moduli equal the published curve orders (Miller-Rabin for primality); fieldinverse (relative to the modulus the backend reports NOW, also after set_modulus with inverses computed before) / gmpy.invert for every argument"),
+    "C09": ("proof", "program schemas (if, if/else, if/elif/else, nested if, while, for with public and secret bounds, lazily evaluated selection) run as interpreted client programs over the real API with symbolic values and conditions, compared with their native-control-flow twin; complete in values, bounded in program shape. On the pinned tree every schema with a secret condition raises (known findings KF-22..28): what is proved is selection with value and list branches, the public-condition schemas, the bookkeeping functions, and - for arbitrary branch bodies - the honest-satisfaction and trace-shape facets of every gadget contract in the guarded modes (dead and live guard)"),
+    "C11": ("proof", "zkinterface prove() for the three field configurations, at call level under an ASSUMED contract of flatbuffers.Builder (library absent; replays run the real prove() against that assumed Builder): the real generated accessor modules are interpreted against it and the message trees decoded by the slot order of zkinterface.fbs; ids, canonical little-endian values, free variable id, field maximum, message selection per file, no witness and no dependence on private values in circuit.zkif. File bytes are not decided"),
+    "C12": ("proof", "qaptools writer side and split at token level: client programs (straight-line, repeated and partly cancelled terms, a sub-circuit function called twice, an inconsistent pair of calls) with symbolic values; every logged equation satisfied by the logged wire values mod p (independent evaluator of the equation grammar), public values tied, flush discipline before the split, per-function files complete, paired blocks of equal length / equal values / equal randomness, shared signature. External executables are failing stubs; md5 collision freedom assumed"),
     "C14": ("proof", "every LinCombFxp operator x operand-kind cell (fixed-point, secret int, boolean, int, float; either side) at resolutions {0,3}: a returned value equals the scaled-integer spec taken from the property statement; raising is an accepted outcome"),
-    "C15": ("proof", "Array.__getitem__/__setitem__ with secret indices (1-D lengths 1..3, 2-D 2x2): whole-array postconditions, IndexError <=> out of range, out-of-range unprovable, identical trace for every index"),
+    "C15": ("proof", "Array.__getitem__/__setitem__ with secret indices (1-D lengths 1..3; 2-D 2x2 with every public/secret index mix and rows that are Arrays or ArrayRows): whole-array postconditions, IndexError <=> out of range, out-of-range unprovable, identical trace for every index"),
     "C16": ("proof", "to_bits/from_bits/check_positive/assert_positive: round trip, rejection outside range, requested width == enforced width, at widths different from the global bitlength"),
-    "C17": ("proof", "the @snark wrapper against a havocked body: one public input per numeric argument leaf, body receives the same shape, one public output per secret result tied by a constraint, plain values returned, nothing else public, keyword arguments refused before any event; argument/result shapes enumerated"),
+    "C17": ("proof", "the @snark wrapper against a havocked body: one public input per numeric argument leaf, body receives the same shape, one public output per secret result tied by a constraint, plain values returned, nothing else public, keyword arguments refused before any event; argument/result shapes enumerated (including the same wire returned twice); LinComb.val allocates and ties one new public wire on every call"),
     "C18": ("proof", "code side proved (ExitOverrider.exit/excepthook/__init__, maybe_, runtime.final); the interpreter's termination behaviour is an assumed environment contract whose clauses are validated by one subprocess probe per (termination mode, position) on the installed CPython (those probes are observations, not proofs)"),
     "C20": ("proof", "Poseidon: each of the 68 rounds of the real loop bodies equals the reference round function for ALL states (loop cut per iteration), sponge absorption/padding/output, parameter set bound to runtime.backend_name, constraint counts; ground instances against an independent plain-integer implementation and the published vectors (BN254, BLS12-381); subset-sum hash equals its plain form mod p; SHA512 generator compared with a reimplementation on 32 indices (bounded)"),
     "C19": ("proof", "the module-level selection code of runtime.py executed with a SYMBOLIC environment (pre-imported set, PYSNARK_BACKEND value, loadability map, ipython): every environment is covered by the explored paths; real backend modules are loaded through the interpreter with absent third-party dependencies stubbed"),
